@@ -224,3 +224,28 @@ contract(INS + ':Instruction.__init__', name='variant-order', props=['C13'],
                                f'forall(lambda j: implies(0 <= j and j < i, elems(self._variants)[{ROOT} + j]._variant_config'
                                ' == cfg_item(instruction_config["variants"], j)))'])})
 
+
+
+# ---- "a register name is never accepted where a numeric expression is expected": the label leaves of an expression --------
+# (contains_register_labels intersects this set with the register names; a leaf under a unary node -- negation, LSB(),
+#  BYTEn() -- is a leaf of the expression like any other)
+from .c07_expressions import HEAPS, WF  # noqa: E402
+
+
+@spec(rec=True, sig=['ExpressionNode?', 'arr[TokenType]', 'arr[union]', 'arr[Optional[ExpressionNode]]',
+                     'arr[Optional[ExpressionNode]]', 'str', 'bool'])
+def has_label(n, TT, VAL, L, R, w):
+    """w is the text of some label leaf of the (well-formed) tree n"""
+    if TT[n].value == 1:
+        return union_str(VAL[n]) == w
+    if TT[n].value == 0:
+        return False
+    if TT[n].value == 2 or TT[n].value == 13 or TT[n].value == 14:
+        return has_label(L[n], TT, VAL, L, R, w)
+    return has_label(L[n], TT, VAL, L, R, w) or has_label(R[n], TT, VAL, L, R, w)
+
+
+contract('bespokeasm.expression:ExpressionNode.contained_labels', name='label-leaves', props=['C13'], returns='set[str]',
+         requires=[WF],
+         ensures=[f'forall(lambda w: (w in result) == has_label(self, {HEAPS}, w), types={{"w": "str"}})'],
+         modifies=[], allocates=True, no_frame_check=True)
